@@ -97,6 +97,9 @@ fn build_text(entry: Entry, xs: &[u32]) -> String {
             Entry::TextLines => {
                 s.push_str(&tok(entry, x));
                 s.push_str(LINE_EXTRA[(x as usize) % LINE_EXTRA.len()]);
+                if (x as usize + i) % 4 == 0 {
+                    s.push_str(crate::gen::ODD_STRS[(x as usize * 5 + i) % crate::gen::ODD_STRS.len()]);
+                }
                 s.push_str(match x % 5 {
                     0 => "\r\n",
                     1 => "\r",
@@ -105,11 +108,21 @@ fn build_text(entry: Entry, xs: &[u32]) -> String {
             }
             Entry::TextWords => {
                 if i > 0 {
-                    s.push_str(SEPS[(x as usize) % SEPS.len()]);
+                    // mostly the short list above, otherwise any odd code point
+                    if (x as usize + i) % 3 == 0 {
+                        s.push_str(crate::gen::ODD_STRS[(x as usize * 7 + i) % crate::gen::ODD_STRS.len()]);
+                    } else {
+                        s.push_str(SEPS[(x as usize) % SEPS.len()]);
+                    }
                 }
                 s.push_str(&tok(entry, x));
             }
-            _ => s.push_str(&tok(entry, x)),
+            _ => {
+                s.push_str(&tok(entry, x));
+                if (x as usize + i) % 5 == 0 {
+                    s.push_str(crate::gen::ODD_STRS[(x as usize * 3 + i) % crate::gen::ODD_STRS.len()]);
+                }
+            }
         }
     }
     s
